@@ -38,6 +38,7 @@ type network struct {
 	recorded []*IncMessage
 	sent     int64
 	extra    int64
+	active   int64
 }
 
 func clone(b []byte) []byte { return append([]byte(nil), b...) }
@@ -54,8 +55,10 @@ func (nw *network) deliver(to uint16, m *IncMessage, delay time.Duration) {
 	}
 	c := &IncMessage{Data: clone(m.Data), Topic: clone(m.Topic), Source: m.Source, MsgType: m.MsgType}
 	nw.inflight.Add(1)
+	atomic.AddInt64(&nw.active, 1)
 	go func() {
 		defer nw.inflight.Done()
+		defer atomic.AddInt64(&nw.active, -1)
 		if delay > 0 {
 			time.Sleep(delay)
 		}
